@@ -526,10 +526,15 @@ func compScenarios(a map[string]string) *compScenario {
 			files2 = srcItems("jn", 1)
 		}
 		return &compScenario{
-			desc: fmt.Sprintf("concatenator/inputs=%d/second-upstream=%v", k, two),
+			desc: fmt.Sprintf("concatenator/inputs=%d/second-upstream=%v", k, two) + map[bool]string{true: "/longer-output-of-an-earlier-run-present", false: ""}[a["stale"] == "1"],
 			setup: func() {
 				for _, f := range append(append([]string{}, files...), files2...) {
 					os.WriteFile(f, []byte("content of "+f), 0644)
+				}
+				if a["stale"] == "1" {
+					// the output of an earlier run over MORE inputs is still there
+					os.MkdirAll("out", 0777)
+					os.WriteFile("out/all.txt", []byte(strings.Repeat("content of an input of the earlier run\n", 6)), 0644)
 				}
 			},
 			build: func(wf *sp.Workflow) {
